@@ -151,6 +151,8 @@ class FnTranslator:
             return f"(EBool {'true' if v else 'false'})"
         if isinstance(v, str):
             return f"(EStr {coq_str(v)})"
+        if isinstance(v, int) and v >= 0:
+            return f"(EInt {v}%N)"
         raise Unsupported(f"constant {v!r}")
 
     def is_self(self, n) -> bool:
@@ -194,6 +196,9 @@ class FnTranslator:
                 return f"(EIsNone {self.exp(a)})"
             if isinstance(op, ast.IsNot) and b_none:
                 return f"(EIsNotNone {self.exp(a)})"
+            if isinstance(op, (ast.Lt, ast.LtE, ast.Gt, ast.GtE)):
+                name = {ast.Lt: "CLt", ast.LtE: "CLe", ast.Gt: "CGt", ast.GtE: "CGe"}[type(op)]
+                return f"(ECmp {name} {self.exp(a)} {self.exp(b)})"
             if isinstance(op, ast.Eq):
                 return f"(EEq {self.exp(a)} {self.exp(b)})"
             if isinstance(op, ast.NotEq):
@@ -284,6 +289,8 @@ class FnTranslator:
                         raise Unsupported(f"{f.id} called on another converter")
                     n = ast.Call(func=n.func, args=n.args[1:], keywords=n.keywords)
                 return f"(ECall f_{f.id} {self.call_args(f.id, n)})"
+            if f.id == "len" and len(n.args) == 1 and not n.keywords:
+                return f"(ELen {self.exp(n.args[0])})"
             if f.id == "sorted" and len(n.args) == 1 and not n.keywords:
                 upd = self.set_update(n.args[0])
                 return upd if upd is not None else f"(ESorted {self.exp(n.args[0])})"
@@ -312,6 +319,8 @@ class FnTranslator:
                     and isinstance(n.args[0], ast.Call) and isinstance(n.args[0].func, ast.Attribute) and n.args[0].func.attr == "values" \
                     and not n.args[0].args and isinstance(n.args[0].func.value, ast.Name) and n.args[0].func.value.id == recv.args[0].id:
                 return f"(EKeysInterValues {self.exp(recv.args[0])})"
+            if f.attr in ("startswith", "endswith") and len(n.args) == 1 and not n.keywords:
+                return f"({'EStartsWith' if f.attr == 'startswith' else 'EEndsWith'} {self.exp(recv)} {self.exp(n.args[0])})"
             if f.attr == "partition" and len(n.args) == 1 and not n.keywords:
                 return f"(EPartition {self.exp(recv)} {self.exp(n.args[0])})"
             if f.attr == "replace" and len(n.args) == 2 and not n.keywords and all(isinstance(a, ast.Constant) and isinstance(a.value, str) for a in n.args) \
